@@ -41,5 +41,7 @@ class C07(CacheProp):
     def nontrivial(self, case, il):
         return any(o.startswith("tick") for o in case.ops) and any(" true" in l for l in il)
 
+    stress_kinds = ("early", "sweeprace")
+
 
 PROP = C07()
